@@ -48,6 +48,11 @@ class UidLog:
         self.removed: dict[tuple[int, int], list[tuple[int, int]]] = {}
         # (lineage, validity) -> [(uid, step the selection began, dump step)]
         self.fresh_seen: dict[tuple[int, int], list[tuple[int, int, int]]] = {}
+        # (lineage) -> [(call step, return step)] of RENAME-away / DELETE
+        # that made room for a new mailbox of the same name
+        self.replaced: dict[int, list[tuple[int, int]]] = {}
+        # (key, uid, start step) of a dump entry -> step its selection began
+        self.fetch_sel: dict[tuple[Any, int, int], int] = {}
         # lineages that an APPEND/COPY/MOVE without a tagged reply may have
         # added to (the UIDs it assigned are unknown)
         self.unacked_into: set[int] = set()
@@ -63,14 +68,11 @@ class UidLog:
         return self.lineage[name]
 
     def renamed(self, a: bytes, b: bytes) -> None:
-        if a.upper() == b'INBOX':
-            # messages move to b with a new lineage for b?  RFC: b gets the
-            # messages; INBOX stays (empty) with its own UID history.
-            self.nlin += 1
-            self.lineage[b] = self.nlin
-            return
-        if a in self.lineage:
-            self.lineage[b] = self.lineage.pop(a)
+        # Histories are kept per mailbox *name*, as a client caches them:
+        # (name, UIDVALIDITY, UID) must never denote two messages.  A mailbox
+        # that is renamed away and replaced by a new one of the same name
+        # therefore needs another UIDVALIDITY (or UIDs above the old ones).
+        pass
 
     def deleted(self, a: bytes) -> None:
         # a re-created mailbox continues the lineage *if* UIDVALIDITY stays
@@ -93,6 +95,18 @@ class UidLog:
                     end: int) -> None:
         self.removed.setdefault((self.lin(name), validity), []).append(
             (uid, end))
+
+    def stale(self, key: tuple[int, int], a: tuple[Any, ...]) -> bool:
+        """The observation is a dump by a selection that began before the
+        mailbox of that name was replaced and was made after the replacement
+        had begun."""
+        if a[4] != 'FETCH':
+            return False
+        sel = self.fetch_sel.get((key, a[2], a[0]))
+        if sel is None:
+            return False
+        return any(sel < r1 and a[1] > r0
+                   for r0, r1 in self.replaced.get(key[0], []))
 
     def check(self) -> None:
         rep = self.hist.report
@@ -146,7 +160,10 @@ class UidLog:
                     o = by_uid[u]
                     if a[3] is not None and o[3] is not None \
                             and a[3] != o[3]:
-                        rep('uid-denotes-two-messages',
+                        rep('uid-denotes-two-messages' + (
+                            ':stale-selection-of-replaced-mailbox'
+                            if self.stale(key, a) or self.stale(key, o)
+                            else ''),
                             'lineage/validity %r UID %d: %r (%s) and %r (%s)'
                             % (key, u, o[3], o[4], a[3], a[4]))
                     elif a[4] in ('APPENDUID', 'COPYUID') and \
@@ -226,7 +243,15 @@ async def do_copy(s: USession, dest: bytes, move: bool) -> None:
                 continue
             s.ulog.count('copyuid_checked')
             for su, du in zip(srcs, dsts):
-                cid = s.hist.lookup(src, su)
+                cid = s.hist.lookup(src, su, getattr(s, 'validity', None))
+                if any(getattr(s, 'select_step', 0) < r1
+                       for _, r1 in s.ulog.replaced.get(
+                           s.ulog.lin(src), [])):
+                    # the selection predates a replacement of that mailbox:
+                    # which incarnation the source UID means is the known
+                    # finding itself, not something to build on
+                    cid = None
+                    s.ulog.count('copies_from_stale_selection')
                 s.ulog.add(dest, val, du, cid, r.step_call, r.step_ret,
                            'COPYUID')
                 sval = getattr(s, 'validity', None)
@@ -277,6 +302,8 @@ async def do_dump(s: USession) -> None:
             cid = content_id(u.data)
             s.ulog.add(box, val, u.data[b'UID'], cid, r.step_call,
                        r.step_ret, 'FETCH')
+            s.ulog.fetch_sel[((s.ulog.lin(box), val), u.data[b'UID'],
+                              r.step_call)] = getattr(s, 'select_step', 0)
             s.ulog.fresh_seen.setdefault((s.ulog.lin(box), val), []).append(
                 (u.data[b'UID'], getattr(s, 'select_step', 0), r.step_call))
             s.ulog.count('fetch_uid_content_pairs')
@@ -300,7 +327,38 @@ def deliver(env: Any, s: USession, ulog: UidLog) -> None:
     ulog.count('deliveries')
 
 
+async def script_stale_selection(spec: dict[str, Any], hist: History,
+                                 ulog: UidLog) -> None:
+    """A has B1 selected; B renames B1 away, creates a new B1 and appends:
+    A's selection must not show the new mailbox's messages under the
+    UIDVALIDITY it was given for the old one."""
+    env = await make_env(spec['backend'])
+    try:
+        a, b = (USession(env, hist, i, Sched(), i) for i in (1, 2))
+        for s in (a, b):
+            s.ulog = ulog
+            await s.start()
+        await b.cmd(b'CREATE B1')
+        await do_append(b, b'B1')
+        await do_select(a, b'B1')
+        await do_dump(a)
+        rr = await b.cmd(b'RENAME B1 B1-old1')
+        if rr.ok:
+            ulog.replaced.setdefault(ulog.lin(b'B1'), []).append(
+                (rr.step_call, rr.step_ret))
+        await b.cmd(b'CREATE B1')
+        await do_append(b, b'B1')
+        await a.noop()
+        if a.alive:
+            await do_dump(a)
+    finally:
+        env.cleanup()
+
+
 async def run_hist(spec: dict[str, Any], hist: History, ulog: UidLog) -> None:
+    if spec.get('script') == 'stale-selection':
+        await script_stale_selection(spec, hist, ulog)
+        return
     env = await make_env(spec['backend'])
     try:
         rng = random.Random(spec['seed'])
@@ -367,6 +425,23 @@ async def run_hist(spec: dict[str, Any], hist: History, ulog: UidLog) -> None:
                             rr2 = await s.cmd(b'RENAME ' + new + b' ' + a)
                             if rr2.ok:
                                 ulog.renamed(new, a)
+                elif r < 0.985:
+                    # replace a mailbox by a new one of the same name while
+                    # other sessions know (or have selected) the old one
+                    a = s.rng.choice(BOXES[1:])
+                    ulog.count('replace_attempts')
+                    n = ulog.counters['replace_attempts']
+                    how = s.rng.random() < 0.5
+                    rr = await s.cmd(
+                        b'RENAME ' + a + b' ' + a + b'-old%d' % n if how
+                        else b'DELETE ' + a)
+                    if rr.ok:
+                        ulog.replaced.setdefault(ulog.lin(a), []).append(
+                            (rr.step_call, rr.step_ret))
+                        rc = await s.cmd(b'CREATE ' + a)
+                        if rc.ok:
+                            ulog.count('mailboxes_replaced')
+                            await do_append(s, a)
                 else:
                     await s.noop()
             if s.alive and s.shadow.selected:
@@ -424,7 +499,7 @@ class C04(Check):
                        'nchunks': 8}
 
     def run_case(self, spec: dict[str, Any]) -> dict[str, Any]:
-        if spec['kind'] == 'crash':
+        if spec.get('kind') == 'crash':
             return self.run_crash(spec)
         random.seed(spec['seed'])
         hist = History(str(spec['seed']))
@@ -445,7 +520,9 @@ class C04(Check):
             if s.failed and aborted is None and s.failed != 'closed:bye':
                 aborted = 'session-' + s.failed
         mine = ('uid-resurrected', 'uidnext-not-above-delivered-message',
-                'uid-denotes-two-messages', 'uid-assigned-twice',
+                'uid-denotes-two-messages',
+                'uid-denotes-two-messages:'
+                'stale-selection-of-replaced-mailbox', 'uid-assigned-twice',
                 'uid-not-increasing', 'uidnext-not-above-existing',
                 'uidnext-above-next-assigned', 'appenduid-count',
                 'copyuid-length-mismatch')
